@@ -31,7 +31,9 @@ LEVEL_TEXT = ("Generated graph-colouring-like DCOPs with 4-6 variables on a conn
               "One shard runs a second target instead: the real Directory and Discovery objects on SimNet, driven through "
               "the publications of re-hostings (former host un-publishes under its own name, new host publishes, one "
               "re-hosting per computation and event, events separated by a drain) under generated delivery orders; oracle: "
-              "the directory and every surviving subscriber end up naming the new host.")
+              "the directory and every surviving subscriber end up naming the new host. A third shard drives the real "
+              "AgentsMgt object through sequences of 1-4 removal events (set-up, ready, a generated placement of the "
+              "orphans - or none -, done): whenever it writes the status OK every orphan of the event is hosted.")
 LEVEL_NOTE = ("Trusted: the snapshot logic in this file (reads of other threads' dictionaries after a settle delay). "
               "A run costs 3-8 s, so the number of fault sequences explored is small; C25 and C26 explore replication "
               "and the repair constraints densely and deterministically.")
@@ -96,19 +98,25 @@ def cases(draw):
 
 SHARDED = True
 DIR_SHARD = 1   # this shard explores the directory side of re-hostings on SimNet (vf/props/c27_dir.py)
+MGT_SHARD = 2   # ... and this one the orchestrator's repair bookkeeping over event sequences (vf/props/c27_mgt.py)
 
 
 def case_strategy(tier, shard=0):
     if shard == DIR_SHARD:
         from . import c27_dir
         return c27_dir.cases()
+    if shard == MGT_SHARD:
+        from . import c27_mgt
+        return c27_mgt.cases()
     return cases()
 
 
 def shard_budget(tier, shard):
-    """SimNet cases are ~1000 times cheaper than thread-mode runs."""
+    """SimNet / direct-drive cases are ~1000 times cheaper than thread-mode runs."""
     if shard == DIR_SHARD:
         return {"examples": 1500 if tier == "quick" else 20000}
+    if shard == MGT_SHARD:
+        return {"examples": 1000 if tier == "quick" else 15000}
     return {}
 
 
@@ -116,6 +124,9 @@ def run_case(case):
     if case.get("kind") == "dirsim":
         from . import c27_dir
         return c27_dir.run_case(case)
+    if case.get("kind") == "mgtsim":
+        from . import c27_mgt
+        return c27_mgt.run_case(case)
     import random
     from . import c22
     n, k = case["n"], case["k"]
